@@ -751,8 +751,9 @@ def find_enums(node, names, types):
             find_enums(v, names, types)
 
 
-def translate_kernels(ctx, relfile, specs, defines=()):
-    """Translate each kernel spec of one source file.  Returns Lean text (defs) or None."""
+def translate_kernels(ctx, relfile, specs, defines=(), cls=None):
+    """Translate each kernel spec of one source file.  Returns Lean text (defs) or None.
+    `cls`: translator class (default Translator; kcursor.CursorTranslator adds cursors)."""
     asts = {}
     names, etypes = set(), set()
     for sp in specs:
@@ -768,7 +769,7 @@ def translate_kernels(ctx, relfile, specs, defines=()):
     out = []
     allok = True
     for sp in specs:
-        tr = Translator(sp, vals, types)
+        tr = (cls or Translator)(sp, vals, types)
         try:
             term = tr.translate(asts[sp["name"]])
         except KError as e:
@@ -803,5 +804,8 @@ def translate_kernels(ctx, relfile, specs, defines=()):
         out.append("/-- translated from `%s` in %s -/\ndef %s %s : KOut :=\n%s\n" % (sp["name"], relfile, lname, sig, indent(term)))
         out.append("/-- C-type ranges of the inputs of `%s` (assumed by the wrap elision) -/\ndef %s_inRange %s : Prop :=\n  %s\n" % (
             lname, lname, " ".join("(%s : Int)" % nm for nm in seen), " ∧ ".join(rng) if rng else "True"))
+        if sp.get("err_index"):
+            out.append("/-- texts of the `m_msg_set_err` sites of `%s`, indexed by the second argument of its events -/\ndef %s_errStrings : List String := [%s]\n" % (
+                sp["name"], lname, ", ".join('"%s"' % t.replace("\\", "\\\\").replace('"', '\\"') for t in sp.get("_err_strings", []))))
         ctx.obligation("gen", "kernel %s (%s) translated (subset K)" % (sp["name"], relfile), True)
     return "\n".join(out) if allok else None
